@@ -83,6 +83,7 @@ type CheckRun struct {
 	extraObl []Obligation
 	lines    []string
 	skipped  []string
+	pruned   map[string]string
 }
 
 type Obligation struct {
@@ -197,6 +198,7 @@ func runItems(items []Item, extraDir string, nw int) ([]*ItemResult, error) {
 			var out *bufio.Reader
 			start := func() error {
 				cmd = exec.Command(self, "worker", "--extra", extraDir, "--prop", overlayProp)
+				cmd.Env = append(os.Environ(), pruneEnv())
 				cmd.Stderr = os.Stderr
 				var err error
 				in, err = cmd.StdinPipe()
@@ -432,7 +434,24 @@ func checkMain(args []string) int {
 		os.MkdirAll(filepath.Dir(filepath.Join(extraDir, p)), 0o755)
 		os.WriteFile(filepath.Join(extraDir, p), b, 0o644)
 	}
+	// harness declarations that do not type-check against the current tree are pruned (prune.go); their entry points
+	// are reported as not decided
+	pruned, perr := computePrune(c.extra)
+	if perr != nil {
+		fmt.Fprintln(os.Stderr, "BROKEN:", perr)
+		return 3
+	}
+	c.pruned = pruned
 	items := discover(id, def.FnPattern, c.extra)
+	if len(pruned) > 0 {
+		var f []Item
+		for _, it := range items {
+			if _, gone := pruned[it.Fn]; !gone {
+				f = append(f, it)
+			}
+		}
+		items = f
+	}
 	if *only != "" {
 		var f []Item
 		re := regexp.MustCompile(*only)
@@ -498,6 +517,18 @@ func (c *CheckRun) finish(t0 time.Time) int {
 	var violations []Violation
 	var knownHit []string
 	var broken, inconclusive []string
+	{
+		var names []string
+		for n := range c.pruned {
+			names = append(names, n)
+		}
+		sort.Strings(names)
+		for _, n := range names {
+			if strings.HasPrefix(n, "zz"+id+"_") || strings.HasPrefix(n, "zzC") {
+				inconclusive = append(inconclusive, fmt.Sprintf("%s: harness does not compile against the current tree and was left out (%s)", n, c.pruned[n]))
+			}
+		}
+	}
 	states, transitions, queries, sat, unsat, unknown, paths := 0, 0, 0, 0, 0, 0, 0
 	solverS := 0.0
 	fnSet := map[string]int{}
@@ -845,6 +876,14 @@ func runMain(args []string) int {
 			return 3
 		}
 	}
+	if os.Getenv("ZZ_PRUNE") == "" {
+		if pr, err := computePrune(extra); err != nil {
+			fmt.Println(err)
+			return 3
+		} else if len(pr) > 0 {
+			fmt.Println("pruned harness declarations:", pr)
+		}
+	}
 	ov, err := buildOverlay(extra)
 	if err != nil {
 		fmt.Println(err)
@@ -901,6 +940,10 @@ func replayMain(args []string) int {
 	}
 	if d := checks[v.Property]; d != nil && d.Gen != nil {
 		extra, _ = d.Gen(v.Tier)
+	}
+	if _, err := computePrune(extra); err != nil {
+		fmt.Fprintln(os.Stderr, err)
+		return 3
 	}
 	rep := newReplayer(tmp, extra)
 	ro := rep.Run(v.Pkg, v.Harness, v.Model, v.Tier, v.Part, 20*time.Second)
